@@ -25,6 +25,8 @@ DICT_TEMPLATES = {
     "F": {"method": "AM1", "scf_eps": 1.0e-8, "scf_converger": [1]},
     "G": {"method": "AM1", "scf_eps": 1.0e-8, "scf_converger": [1], "dispersion": True},
     "H": {"method": "AM1", "scf_eps": 1.0e-8, "scf_converger": [1], "dispersion": True},
+    "I": {"method": "AM1", "scf_eps": 1.0e-8, "scf_converger": [1]},
+    "J": {"method": "AM1", "scf_eps": 1.0e-8, "scf_converger": [2], "UHF": True},
 }
 # jobs that share dict A but declare their own threshold/backward mode write them into the dict
 # before the call, as a user would (documented keys only)
@@ -40,9 +42,12 @@ JOBS = {
     "mdF": dict(dict="F", mol="h2o", md=True),
     "dispG": dict(dict="G", mol="h2o_dimer"),
     "dispH": dict(dict="H", mol="ch4_h2o"),
+    "farI": dict(dict="I", mol="h2o_far"),                  # atom pairs beyond the overlap cutoff (40 bohr)
+    "uhfJ": dict(dict="J", mol="ch3", fails=True),          # refused inside the SCF solver (UHF + Pulay), after the solve has started
 }
 scf_driver.MOLS["h2o_dimer"] = ([8, 8, 1, 1, 1, 1], [[0, 0, 0], [3.0, 0.1, 0.2], [0.96, 0, 0], [-0.24, 0.93, 0], [3.9, 0.3, 0.3], [2.8, -0.8, 0.4]], 0, 1)
 scf_driver.MOLS["ch4_h2o"] = ([8, 6, 1, 1, 1, 1, 1, 1], [[3.6, 0.2, 0.1], [0, 0, 0], [4.5, 0.4, 0.2], [3.4, -0.7, 0.3], [0.63, 0.63, 0.63], [-0.63, -0.63, 0.63], [-0.63, 0.63, -0.63], [0.63, -0.63, -0.63]], 0, 1)
+scf_driver.MOLS["h2o_far"] = ([8, 8, 1, 1, 1, 1], [[0, 0, 0], [25.0, 0.3, 0.2], [0.96, 0, 0], [-0.24, 0.93, 0], [25.9, 0.5, 0.3], [24.8, -0.6, 0.5]], 0, 1)
 scf_driver.MOLS["nh2rad"] = ([7, 1, 1], [[0, 0, 0], [1.0, 0.2, 0], [-1.0, 0.2, 0]], 0, 1)
 
 DEFAULT_FUNCS = [
